@@ -15,6 +15,7 @@ import (
 	"berty.tech/go-ipfs-log/io/cbor"
 	pbio "berty.tech/go-ipfs-log/io/pb"
 	"github.com/ipfs/go-cid"
+	mh "github.com/multiformats/go-multihash"
 )
 
 // H_smoke_cbor: write an entry with the real default codec and read it back (engine bring-up).
@@ -232,6 +233,21 @@ func H_C08_linkkey() {
 	vx.Assert("C08", err == nil, "a link key can be created")
 	io := base.ApplyOptions(&cbor.Options{LinkKey: key})
 	e := symEntryFull("e", 2)
+	if vx.Choice("legacyLink", 2) == 1 {
+		// a predecessor and a reference that are real identifiers of other forms than the store hands out today:
+		// CIDv0 (a legacy dag-pb entry underneath a migrated log) and CIDv1 dag-pb
+		digest := make([]byte, 32)
+		for i := range digest {
+			digest[i] = byte(3*i + 5)
+		}
+		m, err := mh.Encode(digest, mh.SHA2_256)
+		if err != nil {
+			panic(err)
+		}
+		e.Next = append(e.Next, cid.NewCidV0(m))
+		e.Refs = append(e.Refs, cid.NewCidV1(cid.DagProtobuf, m))
+		vx.Cover("legacy-link-forms")
+	}
 	pre, err := io.PreSign(e)
 	vx.Assert("C08", err == nil, "the pre-sign step succeeds")
 	if err != nil {
